@@ -7,12 +7,14 @@ package quic
 
 import (
 	"context"
+	"encoding/hex"
 	"errors"
 	"fmt"
+	"os"
+	"strconv"
 	"reflect"
 	"runtime"
 	"sort"
-	"strings"
 	"sync"
 	"sync/atomic"
 	"time"
@@ -289,8 +291,31 @@ func c04SkipField(typ, field string) bool {
 	return false
 }
 
+var c04UseCanon = os.Getenv("VERIF_C04_CANON") != ""
+
+type c04KeyBuf struct{ b []byte }
+
+func (k *c04KeyBuf) s(x string) { k.b = append(k.b, x...) }
+func (k *c04KeyBuf) i(x int) {
+	k.b = strconv.AppendInt(k.b, int64(x), 10)
+	k.b = append(k.b, ' ')
+}
+func (k *c04KeyBuf) is(l []int) {
+	k.b = append(k.b, '[')
+	for _, x := range l {
+		k.i(x)
+	}
+	k.b = append(k.b, ']')
+}
+func (k *c04KeyBuf) t(x bool) {
+	if x {
+		k.b = append(k.b, 'T')
+	} else {
+		k.b = append(k.b, 'F')
+	}
+}
+
 func (w *c04World) Key() string {
-	var sb strings.Builder
 	// objects that the part's alphabet never touches stay in their initial state and are
 	// left out of the dump
 	real := struct {
@@ -309,33 +334,70 @@ func (w *c04World) Key() string {
 	default:
 		real.SS, real.RS = w.ss, w.rs
 	}
-	sb.WriteString(canon.Dump(real, canon.Options{SkipField: c04SkipField, TimeBase: int64(w.now)}))
+	k := &c04KeyBuf{b: make([]byte, 0, 8192)}
+	if c04UseCanon {
+		k.s(canon.Dump(real, canon.Options{SkipField: c04SkipField, TimeBase: int64(w.now)}))
+	} else {
+		k.s(c04Dump(real, int64(w.now)))
+	}
 	for _, str := range w.ss {
 		if nf := str.nextFrame; nf != nil {
-			fmt.Fprintf(&sb, "|nf %d@%d %x %v", nf.StreamID, nf.Offset, nf.Data, nf.DataLenPresent)
+			k.s("|nf ")
+			k.i(int(nf.StreamID))
+			k.i(int(nf.Offset))
+			k.b = hex.AppendEncode(k.b, nf.Data)
+			k.t(nf.DataLenPresent)
 		} else {
-			sb.WriteString("|nf-")
+			k.s("|nf-")
 		}
 	}
-	sb.WriteString("|fl")
+	k.s("|fl ")
 	for _, fl := range w.inflight {
-		fmt.Fprintf(&sb, " %d:%d+%d/%v", fl.s, fl.sf.Frame.Offset, len(fl.sf.Frame.Data), fl.sf.Frame.Fin)
+		k.i(fl.s)
+		k.i(int(fl.sf.Frame.Offset))
+		k.i(len(fl.sf.Frame.Data))
+		k.t(fl.sf.Frame.Fin)
 	}
-	fmt.Fprintf(&sb, "|pw %v %v", w.pending[0] != nil, w.pending[1] != nil)
-	fmt.Fprintf(&sb, "|S lim=%v/%d hi=%v wr=%v cl=%v cw=%v blk=%v/%v", w.limS, w.limC, w.hi, w.written, w.closedW, w.cancelW, w.blkS, w.blkC)
-	fmt.Fprintf(&sb, "|R adv=%v/%d h=%v rd=%v fin=%v/%v cl=%v rs=%v rel=%v eof=%v em=%v/%v", w.advS, w.advC, w.h, w.read, w.final, w.finFIN, w.cancelL, w.reset, w.reliable, w.eofRead, w.emS, w.emC)
+	k.s("|pw")
+	k.t(w.pending[0] != nil)
+	k.t(w.pending[1] != nil)
+	k.s("|S ")
+	k.i(w.limC)
+	k.is(w.blkC)
+	k.s("|R ")
+	k.i(w.advC)
+	k.is(w.emC)
 	for s := 0; s < 2; s++ {
-		sb.WriteString("|g")
+		k.s("|s ")
+		k.i(w.limS[s])
+		k.i(w.hi[s])
+		k.i(w.written[s])
+		k.t(w.closedW[s])
+		k.t(w.cancelW[s])
+		k.is(w.blkS[s])
+		k.s("|r ")
+		k.i(w.advS[s])
+		k.i(w.h[s])
+		k.i(w.read[s])
+		k.i(w.final[s])
+		k.i(w.reliable[s])
+		k.t(w.finFIN[s])
+		k.t(w.cancelL[s])
+		k.t(w.reset[s])
+		k.t(w.eofRead[s])
+		k.is(w.emS[s])
+		k.s("|g")
 		for _, b := range w.got[s] {
-			if b {
-				sb.WriteByte('1')
-			} else {
-				sb.WriteByte('0')
-			}
+			k.t(b)
 		}
+		k.s("|cb")
+		k.t(w.sndS.ctrl[s])
+		k.i(w.sndS.completed[s])
+		k.t(w.sndR.ctrl[s])
+		k.i(w.sndR.completed[s])
 	}
-	fmt.Fprintf(&sb, "|cb %v %v %v %v dead=%v", w.sndS.ctrl, w.sndS.completed, w.sndR.ctrl, w.sndR.completed, w.dead)
-	return sb.String()
+	k.t(w.dead)
+	return string(k.b)
 }
 
 func (w *c04World) Outcome() string { return w.outcome }
